@@ -198,3 +198,72 @@ package types
 //@ func (Pattern) Match
 //@   loop 1.1
 //@     invariant 0 <= i
+
+// ----------------------------------------------------- immutability of values (C11)
+// No method of a value writes through its receiver or arguments; constructors
+// do not retain their arguments and accessors do not hand out internal state.
+//@ frameclean C11 NewRecord (Record)Len (Record)Get (Record)Map (Record)Equal (Record)All (Record)Keys (Record)Values (Record)Iterate (Record)MarshalJSON (Record)MarshalCedar (Record)hash
+//@ frameclean C11 NewSet (Set)Len (Set)Contains (Set)Slice (Set)Equal (Set)All (Set)Iterate (Set)MarshalJSON (Set)MarshalCedar (Set)hash
+//@ frameclean C11 (Boolean)Equal (Long)Equal (String)Equal (EntityUID)Equal (Decimal)Equal (Datetime)Equal (Duration)Equal (IPAddr)Equal (EntityMap)Get (EntityMap)Clone
+//@ noleak C11 NewRecord (Record)Map NewSet (Set)Slice (EntityMap)Clone
+
+// ----------------------------------------------------------- equality (C11)
+// Scalar and extension values: Equal is "same dynamic type and same payload".
+//@ func (Boolean) Equal
+//@   props C11
+//@   results r
+//@   ensures r == ((bi is Boolean) && bi.(Boolean) == b)
+//@ func (Long) Equal
+//@   props C11
+//@   results r
+//@   ensures r == ((bi is Long) && bi.(Long) == l)
+//@ func (String) Equal
+//@   props C11
+//@   results r
+//@   ensures r == ((bi is String) && bi.(String) == s)
+//@ func (EntityUID) Equal
+//@   props C11
+//@   results r
+//@   ensures r == ((bi is EntityUID) && bi.(EntityUID) == e)
+//@ func (Decimal) Equal
+//@   props C11
+//@   results r
+//@   ensures r == ((bi is Decimal) && bi.(Decimal).value == d.value)
+//@ func (Datetime) Equal
+//@   props C11
+//@   results r
+//@   ensures r == ((bi is Datetime) && bi.(Datetime).value == d.value)
+//@ func (Duration) Equal
+//@   props C11
+//@   results r
+//@   ensures r == ((bi is Duration) && bi.(Duration).value == d.value)
+//@ func (IPAddr) Equal
+//@   props C11
+//@   results r
+//@   ensures r == ((bi is IPAddr) && bi.(IPAddr) == i)
+
+// Sets and records: a true answer implies the same dynamic type, the same
+// size, and that every member / entry of the receiver has an equal counterpart.
+//@ func (Set) Contains
+//@   pure
+//@   trusted
+//@ func (Record) Equal
+//@   props C11
+//@   results eq
+//@   ensures eq ==> ((bi is Record) && len(r.m) == len(bi.(Record).m) && (forall k String :: has(r.m, k) ==> (has(bi.(Record).m, k) && valEq(r.m[k], bi.(Record).m[k]))))
+//@   loop 1
+//@     invariant forall k String :: $done[k] ==> (has(b.m, k) && valEq(r.m[k], b.m[k]))
+//@ func (Set) Equal
+//@   props C11
+//@   results r
+//@   ensures r ==> ((bi is Set) && len(s.s) == len(bi.(Set).s) && (forall h int :: has(s.s, h) ==> bi.(Set).Contains#0(s.s[h])))
+//@   loop 1
+//@     invariant forall h int :: $done[h] ==> bs.Contains#0(s.s[h])
+
+//@ spec func isScalarV(v Value) bool = v is Boolean || v is Long || v is String || v is EntityUID || v is Decimal || v is Datetime || v is Duration || v is IPAddr
+//@ lemma C11 eq_refl_scalar dispatch Value.Equal: forall v Value :: isScalarV(v) ==> valEq(v, v)
+//@ lemma C11 eq_sym_scalar dispatch Value.Equal: forall a Value, b Value :: (isScalarV(a) && isScalarV(b)) ==> (valEq(a, b) == valEq(b, a))
+//@ lemma C11 eq_trans_scalar dispatch Value.Equal: forall a Value, b Value, c Value :: (isScalarV(a) && isScalarV(b) && isScalarV(c) && valEq(a, b) && valEq(b, c)) ==> valEq(a, c)
+//@ lemma C11 eq_extensional_scalar dispatch Value.Equal: forall a Value, b Value :: (isScalarV(a) && valEq(a, b)) ==> a == b
+//@ lemma C11 eq_same_type dispatch Value.Equal: forall a Value, b Value :: (a != nil && valEq(a, b)) ==> sameType(a, b)
+//@ lemma C11 eq_collisions dispatch Value.Equal: !valEq(Value(Boolean(true)), Value(Long(1))) && !valEq(Value(Long(1)), Value(Decimal(1))) && !valEq(Value(Duration(1)), Value(Datetime(1))) && !valEq(Value(Long(1)), Value(Duration(1)))
